@@ -52,6 +52,16 @@ CLAIMED = {
         "Trusts numpy/scipy eig/ordqz for the classification; near-unit-root (|lambda| in [0.93,1.07]) and rank-deficient models are not judged; small well-conditioned models only.",
         "DESIGN.md section 3, C01",
     ),
+    "C15": (
+        "Hypothesis-generated structural models; autocovariances compared with an MA(infinity) sum of simulated impulse responses; metamorphic rescaling; NaN pattern for unit-root-loaded variables",
+        "For generated determinate models (stationary, or with one exact random-walk equation), drawn shock stds (zeros included), orders 0-4 and "
+        "1-2 parameter variants, get_acov is compared with sum_h Phi_{h+j} Sigma Phi_h' built from 200-period impulse responses of simulate() "
+        "(no Lyapunov solver and no solution matrix in the reference), get_acorr with the scaled reference, rescale_stds(s) with s^2 times the "
+        "reference for every variant, the order-0 matrix for symmetry/PSD, and the NaN pattern with the set of variables whose response to the "
+        "random-walk shock does not decay.",
+        "Relies on first-order simulate() (judged by C01); stable roots <= 0.85 by construction; variables with zero variance are skipped in acorr.",
+        "DESIGN.md section 3, C15",
+    ),
 }
 
 NOT_BUILT_REASON = "check not built yet in this round (design in DESIGN.md section 3); not claimed until it is quiet on the unchanged tree and kills its mutants"
